@@ -1,7 +1,7 @@
 #!/bin/bash
 # tools/confirm_seed.sh <ID>: independently confirm a sub-agent's seeded change in its worktree /tmp/seed/<ID>
 # (1) patch matches the worktree diff, (2) existing suite passes with the change, (3) demo fails with it, (4) demo passes without it
-ID=$1; W=/tmp/seed/$ID; O=/tmp/seed/$ID.out; L=/tmp/seed/$ID.confirm
+ID=$1; B=${2:-/tmp/seed}; W=$B/$ID; O=$B/$ID.out; L=$B/$ID.confirm
 export CARGO_TARGET_DIR=$W/target CARGO_NET_OFFLINE=true
 cd $W || exit 2
 {
@@ -13,10 +13,10 @@ echo "-- unchanged tree: demo"
 cargo test --offline --test seed_demo 2>&1 | grep -E "^test result|error(\[|:)" | head -3
 git apply $O/patch.diff
 echo "-- with change: build + existing suite (demo moved away)"
-mv tests/seed_demo.rs /tmp/seed/$ID.demo.rs
+mv tests/seed_demo.rs $B/$ID.demo.rs
 cargo build --offline 2>&1 | grep -E "^error|warning: unused" | head -3
 cargo test --workspace --no-fail-fast --offline 2>&1 | grep -E "^test result|^error" | head -4
-mv /tmp/seed/$ID.demo.rs tests/seed_demo.rs
+mv $B/$ID.demo.rs tests/seed_demo.rs
 echo "-- with change: demo"
 cargo test --offline --test seed_demo 2>&1 | grep -E "^test result|error(\[|:)" | head -3
 echo "== done"
